@@ -355,3 +355,49 @@ func Try(f func()) (panicText string, ok bool) {
 	f()
 	return "", true
 }
+
+// ---- load canary: a verdict that depends on "nothing happened for a while" is
+// valid only if this goroutine kept its 10 ms schedule during that window.
+type lateEv struct {
+	at   time.Time
+	late time.Duration
+}
+
+var canaryMu sync.Mutex
+var canaryLate []lateEv
+var canaryOnce sync.Once
+
+func StartCanary() {
+	canaryOnce.Do(func() {
+		go func() {
+			last := time.Now()
+			for {
+				time.Sleep(10 * time.Millisecond)
+				now := time.Now()
+				late := now.Sub(last) - 10*time.Millisecond
+				last = now
+				if late > 100*time.Millisecond {
+					canaryMu.Lock()
+					canaryLate = append(canaryLate, lateEv{now, late})
+					if len(canaryLate) > 10000 {
+						canaryLate = canaryLate[5000:]
+					}
+					canaryMu.Unlock()
+				}
+			}
+		}()
+	})
+}
+
+// CanaryWorstSince returns the worst scheduling lateness (>100 ms) observed since t0.
+func CanaryWorstSince(t0 time.Time) time.Duration {
+	canaryMu.Lock()
+	defer canaryMu.Unlock()
+	var w time.Duration
+	for _, e := range canaryLate {
+		if e.at.After(t0) && e.late > w {
+			w = e.late
+		}
+	}
+	return w
+}
